@@ -1,6 +1,7 @@
 import AITB.Model.Proto
 import AITB.Model.Cursor
 import AITB.Model.Factored
+import Driver.C10Util
 open AITB AITB.Cursor
 
 namespace DrvC10
@@ -28,6 +29,21 @@ def range : P String := do
   let comp ← P.tok; P.bar; let ok ← P.bool; P.eof
   if ok then return "ok range" else return s!"fail {comp} result_out_of_range"
 
+/-- `api <function> | 0` : a public function that no harness references and nobody accounted for (tools/api_coverage.py) -/
+def api : P String := do
+  let f ← P.tok; P.bar; let ok ← P.bool; P.eof
+  if ok then return "ok api" else return s!"fail {f} public_function_never_exercised"
+
+/-- `odr <header> <function> | 1` : a non-inline function defined in a header -/
+def odr : P String := do
+  let h ← P.tok; let f ← P.tok; P.bar; let _ ← P.bool; P.eof
+  return s!"fail odr:{h} multiple_definition {f}"
+
+/-- `guard <component> <clause> | ok` : a call run in a forked child returned normally with the expected answer -/
+def guard : P String := do
+  let comp ← P.tok; let clause ← P.tok; P.bar; let ok ← P.bool; P.eof
+  if ok then return "ok guard" else return s!"fail {comp} undefined_behaviour_{clause}"
+
 /-- `crash <harness> <case> | <kind>` : sanitizer/abort/hang outcome of another property's harness (C10 runtime clause) -/
 def crash : P String := do
   let h ← P.tok; let c ← P.tok; P.bar; let kind ← P.tok
@@ -50,5 +66,8 @@ def handle (toks : List String) : String :=
    | "range" :: rest => P.run range rest
    | "fgcopy" :: rest => some (fgcopy rest)
    | "crash" :: rest => P.run crash rest
-   | _ => none).getD "bad-op"
+   | "api" :: rest => P.run api rest
+   | "guard" :: rest => P.run guard rest
+   | "odr" :: rest => P.run odr rest
+   | _ => DrvC10Util.handle toks).getD "bad-op"
 end DrvC10
